@@ -3,7 +3,7 @@ Frame of `step_gc` and the lifting of the connector-limit theorem to the whole `
 `step_gc` over the connectors): one `step_gc` call writes only its own connector, the batteries at it and the
 vehicles at it (battery state and schedule), so the hypotheses about the other connectors survive until their turn.
 -/
-import SpiceEv.Proofs.StratPeakLoadWindowBat
+import SpiceEv.Proofs.StratPeakLoadWindowBatSurplus
 set_option linter.unusedSectionVars false
 set_option linter.unusedSimpArgs false
 set_option linter.unusedVariables false
@@ -298,10 +298,11 @@ theorem stepGc_frame (ops : BatOps α B) (law : BatLaw ops) (env : PEnv α) (w :
     · rfl
 
 /-- premise of the limit theorem for one connector, on the meta data of vehicles and batteries: load within
-`[0, cur_max_power]`, `peak_power ≥ 0`, and the batteries at the connector have ids that are
+`[−cur_max_power, cur_max_power]` (surplus allowed), `cur_max_power ≥ 0`, `peak_power ≥ 0`, and the batteries at the connector have ids that are
 neither load keys nor station ids of vehicles, and non-negative minimum powers -/
 structure GcOK (vm : List (String × Option String)) (bm : List (String × String × α)) (g : PGc α) : Prop where
-  nonneg : 0 ≤ g.gc.currentLoad
+  cm0 : 0 ≤ g.gc.curMax
+  low : -g.gc.curMax ≤ g.gc.currentLoad
   lim : g.gc.currentLoad ≤ g.gc.curMax
   peak0 : 0 ≤ g.peak
   bkey : ∀ t ∈ bm, (t.2.1 == g.gc.id) = true → sdGet g.gc.loads t.1 = none
@@ -309,20 +310,20 @@ structure GcOK (vm : List (String × Option String)) (bm : List (String × Strin
   bmin : ∀ t ∈ bm, (t.2.1 == g.gc.id) = true → 0 ≤ t.2.2
 
 /-- the whole `step`: every connector ends within its limit -/
-theorem step_limit (ops : BatOps α B) (law : BatLaw ops) (idem : LoadIdem ops) (env : PEnv α)
+theorem step_limit (ops : BatOps α B) (law : BatLaw ops) (idem : LoadIdem ops) (lmin : LoadMin ops) (env : PEnv α)
     (hi : 0 < env.interval) (hsum : ∀ l, env.sum l = l.sum) (w w' : PWorld α B) (cmds : List (String × α))
     (hgn : (w.gcs.map (fun g => g.gc.id)).Nodup) (hvn : ((vmeta w.vehicles).map Prod.fst).Nodup)
     (hbn : ((bmeta w.batteries).map Prod.fst).Nodup)
     (hok : ∀ g ∈ w.gcs, GcOK (vmeta w.vehicles) (bmeta w.batteries) g)
     (h : step ops env w = .ok (w', cmds)) :
-    ∀ g' ∈ w'.gcs, 0 ≤ g'.gc.currentLoad ∧ g'.gc.currentLoad ≤ g'.gc.curMax := by
+    ∀ g' ∈ w'.gcs, -g'.gc.curMax ≤ g'.gc.currentLoad ∧ g'.gc.currentLoad ≤ g'.gc.curMax := by
   unfold step at h
   have key : ∀ (gs : List (PGc α)) (st st' : PWorld α B × List (String × α)),
       (gs.map (fun g => g.gc.id)).Nodup → (∀ g0 ∈ gs, g0 ∈ w.gcs) →
       vmeta st.1.vehicles = vmeta w.vehicles → bmeta st.1.batteries = bmeta w.batteries →
       st.1.gcs.map (fun g => g.gc.id) = w.gcs.map (fun g => g.gc.id) →
       (∀ g0 ∈ gs, g0 ∈ st.1.gcs) →
-      (∀ x ∈ st.1.gcs, x.gc.id ∉ gs.map (fun g => g.gc.id) → 0 ≤ x.gc.currentLoad ∧ x.gc.currentLoad ≤ x.gc.curMax) →
+      (∀ x ∈ st.1.gcs, x.gc.id ∉ gs.map (fun g => g.gc.id) → -x.gc.curMax ≤ x.gc.currentLoad ∧ x.gc.currentLoad ≤ x.gc.curMax) →
       gs.foldlM (fun (st : PWorld α B × List (String × α)) g0 =>
         match st.1.gcs.find? (·.gc.id == g0.gc.id) with
         | none => (.error .keyError : Py (PWorld α B × List (String × α)))
@@ -332,7 +333,7 @@ theorem step_limit (ops : BatOps α B) (law : BatLaw ops) (idem : LoadIdem ops) 
           | some level => do
             let (w', cmds) ← stepGc ops env st.1 g level
             .ok (w', sdUpdate st.2 cmds)) st = .ok st' →
-      ∀ x ∈ st'.1.gcs, 0 ≤ x.gc.currentLoad ∧ x.gc.currentLoad ≤ x.gc.curMax := by
+      ∀ x ∈ st'.1.gcs, -x.gc.curMax ≤ x.gc.currentLoad ∧ x.gc.currentLoad ≤ x.gc.curMax := by
     intro gs
     induction gs with
     | nil =>
@@ -374,13 +375,13 @@ theorem step_limit (ops : BatOps α B) (law : BatLaw ops) (idem : LoadIdem ops) 
               unfold bmeta; simp
             rw [this] at hbn'
             exact List.Nodup.sublist (List.filter_sublist.map _) hbn'
-          have hlim := stepGc_limit_bat ops law idem env hi hsum st.1 g level w1 c1 hbid
+          have hlim := stepGc_limit_bat2 ops law idem lmin env hi hsum st.1 g level w1 c1 hbid
             (fun b hb' hp => gok.bkey _ (hbt b hb') hp)
             (fun b hb' hp pv hpv => gok.bcs _ (hbt b hb') hp (pv.v.id, pv.v.cs) (by
               rw [← hvm]
               exact List.mem_map_of_mem (f := fun pv : PVeh α B => (pv.v.id, pv.v.cs)) hpv))
             (fun b hb' hp => gok.bmin _ (hbt b hb') hp)
-            gok.peak0 gok.nonneg gok.lim hr
+            gok.peak0 gok.cm0 gok.lim hr
           obtain ⟨_, fv, fb, g', hg'id, _, _, hgcs⟩ := stepGc_frame ops law env st.1 g level w1 c1 hvn' hbn' hr
           refine ih _ _ hnd.2 (fun g1 hg1 => hin g1 (List.mem_cons_of_mem _ hg1)) (by simp only; rw [fv, hvm])
             (by simp only; rw [fb, hbm]) ?_ ?_ ?_ h2
@@ -410,7 +411,10 @@ theorem step_limit (ops : BatOps α B) (law : BatLaw ops) (idem : LoadIdem ops) 
             · rename_i he
               subst hyx
               obtain ⟨l1, l2, l3⟩ := hlim g' hx' hg'id
-              exact ⟨l2, by rw [l1]; exact l3⟩
+              refine ⟨?_, by rw [l1]; exact l3⟩
+              rw [l1]
+              refine le_trans ?_ l2
+              exact le_min gok.low (by linarith [gok.cm0])
             · rename_i hne
               subst hyx
               apply hb y hy
